@@ -122,7 +122,7 @@ func (r *Replayer) build(pkgRel string) (string, error) {
 		// build: they may import each other's packages (client harness -> server) and close an import cycle
 		// through the library's own test files
 		dir := filepath.ToSlash(filepath.Dir(rel))
-		if dir != pkgRel && dir != "verifrt" && !strings.HasPrefix(dir, "zzverif/") {
+		if dir != pkgRel && dir != "verifrt" && !strings.HasPrefix(dir, "zzverif/") && filepath.Base(rel) != "zz_verif_export.go" {
 			return nil
 		}
 		replace[filepath.Join(r.Repo, rel)] = path
